@@ -193,6 +193,22 @@ def pathbuf_push(I, a, n):
     return UNIT
 
 
+@model(r"^std::path::PathBuf::pop$")
+def pathbuf_pop(I, a, n):
+    p = unbox(a[0])
+    par = path_parts(I, [p], "std::path::Path::parent")
+    if par.variant == 0:
+        return False
+    p.s = par.fields[0].s
+    return True
+
+
+@model(r"^anyhow::__private::not$")
+def anyhow_not(I, a, n):
+    import z3
+    return z3.Not(a[0]) if is_sym(a[0]) else (not a[0])
+
+
 @model(r"^std::path::Path::to_string_lossy$")
 def path_to_string_lossy(I, a, n):
     return EnumV("Cow", 0, [path_text(a[0])])
